@@ -275,10 +275,7 @@ def run(tier: str, seed: int) -> int:
     rejects = [c for c in cases if c['ref'] != 'ok']
     accepts = [c for c in cases if c['ref'] == 'ok']
     if tier == 'quick':
-        os_, strata = fx.stratified_sample([c for c in accepts if c['method'] == 'overlap_save'], _stratum, 2, seed)
-        pure, strata2 = fx.stratified_sample([c for c in accepts if c['method'] != 'overlap_save'], _stratum, 1, seed)
-        picked = os_ + pure
-        strata.update(strata2)
+        picked, strata = fx.stratified_sample(accepts, _stratum, 1, seed)
         picked += rejects
         sampled = True
     else:
@@ -335,8 +332,8 @@ def run(tier: str, seed: int) -> int:
         'rule': 'cases = every configuration (n, K, method, fft_size incl. default, input batch, band batch) of the '
                 'bound, enumerated and checked by TLC, plus the configurations the constructor must reject; each '
                 'replayed case is executed once per (dtype, 64-bit mode) = evaluations; replayed = all (thorough) or '
-                'per stratum method x batch shapes x K x fft class x (K>n): two for overlap_save, one for the other methods '
-                '(quick) + every rejection case; '
+                'one per stratum method x batch shapes x K x fft class (default / 2K-1 / other) x (K>n) (quick) '
+                '+ every rejection case; '
                 'non-trivial = accepted configuration with n >= 2 and K >= 2, distinct by configuration',
         'exhaustive': not sampled,
         'bounds': BOUNDS[tier], 'emitted_cases': emitted, 'replayed_cases': len(replayed_ids),
